@@ -104,6 +104,8 @@ class PathCtx:
         self.notes = []  # axioms / inlined helpers / opaque calls used on this path
         self.n_pc = 0
         self.no_fork = False
+        self.tainted = False  # a refuted/undecided obligation was assumed: pc may be unsat
+        self.premises = []
 
     # -- naming ------------------------------------------------------------------
     def fresh_name(self, base):
@@ -126,6 +128,14 @@ class PathCtx:
         self.solver.add(cond)
         self.n_pc += 1
 
+    # premises that hold only for the obligations of a scope (Skolem ranges): they are
+    # hypotheses of those checks, never part of the path condition
+    def push_premise(self, cond):
+        self.premises.append(cond)
+
+    def pop_premise(self):
+        self.premises.pop()
+
     def feasible(self):
         return self.solver.check() != z3.unsat
 
@@ -138,6 +148,16 @@ class PathCtx:
             return True
         if z3.is_false(cond):
             return False
+        if self.no_fork:
+            # speculative evaluation: never consumes or records decisions; a condition the
+            # path condition does not determine ends the speculation
+            can_t = self.solver.check(cond) != z3.unsat
+            can_f = self.solver.check(z3.Not(cond)) != z3.unsat
+            if can_t and can_f:
+                raise WouldFork()
+            if not can_t and not can_f:
+                raise PathAbort()
+            return can_t
         pos = len(self.trace)
         if pos < len(self.prefix):
             choice = self.prefix[pos]
@@ -145,8 +165,6 @@ class PathCtx:
             can_t = self.solver.check(cond) != z3.unsat
             can_f = self.solver.check(z3.Not(cond)) != z3.unsat
             if can_t and can_f:
-                if self.no_fork:
-                    raise WouldFork()
                 self.engine.push_work(self.trace + [False])
                 choice = True
             elif can_t:
@@ -154,6 +172,11 @@ class PathCtx:
             elif can_f:
                 choice = False
             else:
+                if not self.tainted:
+                    # the path condition is unsatisfiable although nothing was assumed that
+                    # could make it so: the exploration itself is inconsistent (never silently
+                    # drop such a path -- it would hide violations)
+                    raise VCError("engine inconsistency: path condition unsatisfiable at a branch (trace %r)" % (self.trace,))
                 raise PathAbort()
         self.trace.append(choice)
         self.solver.add(cond if choice else z3.Not(cond))
@@ -168,7 +191,7 @@ class PathCtx:
 
     def choose(self, n: int) -> int:
         """non-deterministic choice among n alternatives (harness-level case split)"""
-        if self.no_fork and n > 1 and len(self.trace) >= len(self.prefix):
+        if self.no_fork and n > 1:
             raise WouldFork()
         for k in range(n - 1):
             pos = len(self.trace)
@@ -208,6 +231,8 @@ class PathCtx:
                 self.checks.append(CheckResult(label, "proved", solver="const", where=where, path=list(self.trace)))
                 return True
             cond = z3.BoolVal(False)
+        if self.premises and not isinstance(cond, bool):
+            cond = z3.Implies(z3.And(self.premises), cond)
         s = self.solver
         s.push()
         s.set("timeout", eng.timeout_ms)
@@ -240,6 +265,7 @@ class PathCtx:
         self.checks.append(res)
         if res.status != "proved":
             # continue under the assumption, as every deductive verifier does
+            self.tainted = True
             self.assume(cond)
         return res.status == "proved"
 
